@@ -36,7 +36,7 @@ func yamlTagOfPath(w *World, path string) (tag string, exported bool, ok bool) {
 		}
 		found := false
 		for k := 0; k < st.NumFields(); k++ {
-			if st.Field(k).Name() == parts[i] {
+			if fvName(st.Field(k)) == parts[i] {
 				found = true
 				if i == len(parts)-1 {
 					return reflect.StructTag(st.Tag(k)).Get("yaml"), st.Field(k).Exported(), true
